@@ -1,7 +1,240 @@
-import Ccp.Model.Tree
+import Ccp.Proofs.TreeForest
+/-!
+# C03 — family relations form a consistent forest
+
+Property theorems only; helper lemmas and the specification vocabulary live in
+`Ccp.Proofs.TreeForest`:
+
+* `Forest t` := `t.parents.length = t.texts.length ∧ ∀ i < t.size, parentOf t i ≤ i`
+  (one parent index per line; a line is a root iff `parentOf t i = i`; otherwise its
+  parent comes strictly before it);
+* `ancestors t j` := `if parentOf t j < j then parentOf t j :: ancestors t (parentOf t j) else []`
+  (the chain parent, grandparent, … root of line `j`, nearest first);
+* `IsAncestor t a j` := the transitive closure of "`a` is the parent of `j`, `j` not a root".
+
+The model (`Ccp.Model.Tree`) stores one parent index per line and *derives* the child
+lists; that the implementation's stored child lists and its seven views equal the
+model's is what the correspondence `harness/props/c03.py` measures.
+
+Not covered here: `commit_forest` for arbitrary committed edit sequences (C07's state
+machine) and the brace-syntax trees (C08); `parse` covers the fresh parse *and* the
+re-bootstrap that `commit()` performs on the resulting texts.
+-/
 namespace Ccp.C03
 open Ccp.Tree Ccp.Py
 
-theorem placeholder_reparent_texts (t : T) (p c : Nat) : (reparent t p c).texts = t.texts := rfl
+/-! ## the parse result is a forest -/
+
+/-- **Every parse is a forest**, for every config text, every option set (`ios` macros on
+or off, any comment delimiters, `ignore_blank_lines` on or off), banners and macros
+terminated or not: after all four passes of both bootstraps there is exactly one parent
+index per line and no line's parent comes after it. -/
+theorem parse_forest (cfg : Cfg) (ls : List Str) : Forest (parse cfg ls) :=
+  bootstrap_forest cfg _
+
+/-- The same for a single `ConfigList.bootstrap` (what `commit()` re-runs). -/
+theorem bootstrap_forest (cfg : Cfg) (ls : List Str) : Forest (bootstrap cfg ls) :=
+  Ccp.Tree.bootstrap_forest cfg ls
+
+/-- Passes 1–3 (indentation links, banner walk, macro walk) on their own, and they keep
+the line texts in place. -/
+theorem link_forest (cfg : Cfg) (ls : List Str) :
+    Forest (link cfg ls) ∧ (link cfg ls).texts = ls :=
+  ⟨Ccp.Tree.link_forest cfg ls, link_texts_eq cfg ls⟩
+
+/-- In a forest every line is a root (its own parent) or its parent comes strictly
+before it; lines beyond the end are their own parent. -/
+theorem root_or_before {t : T} (hf : Forest t) (i : Nat) :
+    (parentOf t i = i ∨ parentOf t i < i) ∧ (t.size ≤ i → parentOf t i = i) := by
+  have h := parentOf_le_of_forest hf i
+  refine ⟨by omega, fun hi => ?_⟩
+  have : t.parents.length ≤ i := by have := hf.1; simp only [T.size] at hi; omega
+  simp [parentOf, List.getD_eq_getElem?_getD, List.getElem?_eq_none this]
+
+/-! ## child lists -/
+
+/-- The child list of `i` holds exactly the lines other than `i` whose parent is `i`. -/
+theorem children_spec (t : T) (i j : Nat) :
+    j ∈ children t i ↔ j < t.size ∧ parentOf t j = i ∧ j ≠ i := mem_children
+
+/-- Child lists are in strictly ascending line order (hence duplicate free). -/
+theorem children_ascending (t : T) (i : Nat) : (children t i).Pairwise (· < ·) :=
+  children_sorted t i
+
+/-- How often `j` occurs in the child list of `i`: once if `i` is its parent and `j` is
+not a root, otherwise never. -/
+theorem children_count (t : T) (i j : Nat) :
+    (children t i).count j = if j < t.size ∧ parentOf t j = i ∧ j ≠ i then 1 else 0 :=
+  Ccp.Tree.children_count t i j
+
+/-- A non-root line is in exactly one child list — its parent's — exactly once. -/
+theorem child_in_exactly_one_list (t : T) (j : Nat) (hj : j < t.size) (hne : parentOf t j ≠ j) :
+    (∀ i, j ∈ children t i ↔ i = parentOf t j) ∧ (children t (parentOf t j)).count j = 1 := by
+  constructor
+  · intro i
+    rw [mem_children]
+    constructor
+    · rintro ⟨_, h, _⟩; exact h.symm
+    · rintro rfl; exact ⟨hj, rfl, fun h => hne h.symm⟩
+  · rw [Ccp.Tree.children_count]; simp [hj]; exact fun h => hne h.symm
+
+/-- A root is in no child list. -/
+theorem root_in_no_list (t : T) (j : Nat) (hr : parentOf t j = j) : ∀ i, j ∉ children t i := by
+  intro i h
+  obtain ⟨_, h1, h2⟩ := mem_children.mp h
+  exact h2 (hr.symm.trans h1)
+
+/-- Parents come before their children. -/
+theorem children_after {t : T} (hf : Forest t) {i j : Nat} (h : j ∈ children t i) : i < j := by
+  obtain ⟨_, h1, h2⟩ := mem_children.mp h
+  have := parentOf_le_of_forest hf j
+  omega
+
+/-! ## the ancestor chain (specification) -/
+
+/-- defining equation of `ancestors` -/
+theorem ancestors_unfold (t : T) (j : Nat) :
+    ancestors t j = if parentOf t j < j then parentOf t j :: ancestors t (parentOf t j) else [] := by
+  rw [ancestors]
+
+/-- In a forest the chain lists exactly the proper ancestors (transitive closure of the
+parent link), strictly descending, and ends at a root. -/
+theorem ancestors_spec {t : T} (hf : Forest t) (j : Nat) :
+    (∀ a, a ∈ ancestors t j ↔ IsAncestor t a j) ∧
+    (ancestors t j).Pairwise (· > ·) ∧
+    (∀ a ∈ ancestors t j, a < j ∧ j < t.size) ∧
+    (∀ r, (ancestors t j).getLast? = some r → parentOf t r = r) :=
+  ⟨fun _ => ⟨isAncestor_of_mem, mem_of_isAncestor hf⟩, ancestors_desc t j,
+   fun _ ha => ⟨ancestors_lt ha, ancestors_lt_size hf ha⟩, fun _ hr => ancestors_last_root hf hr⟩
+
+/-! ## the views -/
+
+/-- `all_parents` is the ancestor chain, root first: strictly ascending, duplicate free.
+(The fuel `t.size` of the model's loop is sufficient.) -/
+theorem allParents_spec {t : T} (hf : Forest t) (i : Nat) :
+    allParents t i = (ancestors t i).reverse ∧
+    (allParents t i).Pairwise (· < ·) ∧ (allParents t i).Nodup :=
+  ⟨allParents_eq hf i, allParents_sorted hf i, nodup_of_sorted (allParents_sorted hf i)⟩
+
+/-- `all_children` is the transitive closure in line order: `j` is listed iff `i` is on
+`j`'s ancestor chain; strictly ascending, duplicate free; as a list, it is the lines of
+the config filtered by that condition.  (The fuel `t.size` of the model's recursion is
+sufficient.) -/
+theorem allChildren_spec {t : T} (hf : Forest t) (i : Nat) :
+    (∀ j, j ∈ allChildren t i ↔ i ∈ ancestors t j) ∧
+    (allChildren t i).Pairwise (· < ·) ∧ (allChildren t i).Nodup ∧
+    allChildren t i = (List.range t.size).filter (fun j => decide (i ∈ ancestors t j)) :=
+  ⟨fun _ => mem_allChildren hf, allChildren_sorted hf i, nodup_of_sorted (allChildren_sorted hf i),
+   allChildren_eq_filter hf i⟩
+
+/-- `all_children` is "the children and, recursively, theirs" — the least such set is the
+one of `allChildren_spec`. -/
+theorem allChildren_closure {t : T} (hf : Forest t) (i j : Nat) :
+    j ∈ allChildren t i ↔ ∃ c ∈ children t i, j = c ∨ j ∈ allChildren t c :=
+  mem_allChildren_closure hf
+
+/-- `all_parents` and `all_children` are converse relations. -/
+theorem allParents_allChildren_dual {t : T} (hf : Forest t) (i j : Nat) :
+    i ∈ allParents t j ↔ j ∈ allChildren t i := by
+  rw [mem_allParents hf, mem_allChildren hf]
+
+/-- `geneology` is the path from the root down to the line itself. -/
+theorem geneology_spec {t : T} (hf : Forest t) (i : Nat) :
+    geneology t i = (ancestors t i).reverse ++ [i] ∧ (geneology t i).Pairwise (· < ·) := by
+  have h : geneology t i = (ancestors t i).reverse ++ [i] := by rw [geneology, allParents_eq hf]
+  refine ⟨h, ?_⟩
+  rw [geneology]
+  exact (List.pairwise_append.mp (family_sorted hf i)).1
+
+/-- `lineage` is ancestors, the line, descendants — already in line order: strictly
+ascending, and `j` is listed iff it is an ancestor of `i`, `i` itself or a descendant. -/
+theorem lineage_spec {t : T} (hf : Forest t) (i : Nat) :
+    lineage t i = allParents t i ++ [i] ++ allChildren t i ∧
+    (lineage t i).Pairwise (· < ·) ∧
+    (∀ j, j ∈ lineage t i ↔ j ∈ ancestors t i ∨ j = i ∨ i ∈ ancestors t j) := by
+  refine ⟨lineage_eq hf i, ?_, ?_⟩
+  · rw [lineage_eq hf]; exact family_sorted hf i
+  · intro j
+    rw [lineage_eq hf]
+    simp only [List.mem_append, List.mem_singleton, mem_allParents hf, mem_allChildren hf, or_assoc]
+
+/-- `family_endpoint` is the largest line number among the line and its descendants. -/
+theorem familyEndpoint_spec {t : T} (hf : Forest t) (i : Nat) :
+    familyEndpoint t i ∈ i :: allChildren t i ∧
+    ∀ j ∈ i :: allChildren t i, j ≤ familyEndpoint t i :=
+  familyEndpoint_max hf i
+
+/-- `siblings`: the lines in the parent's child list with the same indentation, in
+ascending line order.  (For a root `i` that is the root's own children of equal indent —
+the code does not special-case roots.) -/
+theorem siblings_spec (t : T) (i : Nat) :
+    (∀ j, j ∈ siblings t i ↔
+      j < t.size ∧ parentOf t j = parentOf t i ∧ j ≠ parentOf t i ∧ indentOf t j = indentOf t i) ∧
+    (siblings t i).Pairwise (· < ·) :=
+  ⟨fun _ => mem_siblings, siblings_sorted t i⟩
+
+/-- A non-root line is among its own siblings. -/
+theorem self_mem_siblings (t : T) (i : Nat) (hi : i < t.size) (hne : parentOf t i ≠ i) :
+    i ∈ siblings t i := mem_siblings.mpr ⟨hi, rfl, fun h => hne h.symm, rfl⟩
+
+/-- Flags: `is_parent` iff the child list is non-empty iff some other line names `i` as
+its parent; `is_child` iff the line is not a root. -/
+theorem flags_spec (t : T) (i : Nat) :
+    (isParent t i = true ↔ children t i ≠ []) ∧
+    (isParent t i = true ↔ ∃ j, j < t.size ∧ parentOf t j = i ∧ j ≠ i) ∧
+    (isChild t i = true ↔ parentOf t i ≠ i) := by
+  have h1 : isParent t i = true ↔ children t i ≠ [] := by
+    simp [isParent]
+  refine ⟨h1, ?_, by simp [isChild]⟩
+  rw [h1]
+  constructor
+  · intro h
+    obtain ⟨j, hj⟩ := List.exists_mem_of_ne_nil _ h
+    exact ⟨j, mem_children.mp hj⟩
+  · rintro ⟨j, hj⟩ h
+    have := mem_children.mpr hj
+    rw [h] at this; cases this
+
+/-! ## non-vacuity: concrete configs -/
+
+def exCfg : Cfg := { ios := true, delims := ['!'], ignoreBlank := false }
+
+/-- a banner with an indented and a blank body line; the delimiter line `x^` is a root
+after pass 1 and is re-parented by the banner walk -/
+def exBanner : List Str :=
+  ["banner motd ^".toList, " hi".toList, "".toList, "x^".toList, "interface X".toList, " shutdown".toList]
+
+example : (parse exCfg exBanner).parents = [0, 0, 0, 0, 4, 4] := by decide
+example : (link exCfg exBanner).parents ≠ linkByIndent exCfg exBanner := by decide
+example : children (parse exCfg exBanner) 0 = [1, 2, 3] := by decide
+example : children (parse exCfg exBanner) 4 = [5] := by decide
+example : allChildren (parse exCfg exBanner) 0 = [1, 2, 3] := by decide
+example : familyEndpoint (parse exCfg exBanner) 0 = 3 ∧ familyEndpoint (parse exCfg exBanner) 5 = 5 := by decide
+example : siblings (parse exCfg exBanner) 3 = [2, 3] := by decide
+example : isParent (parse exCfg exBanner) 4 = true ∧ isChild (parse exCfg exBanner) 4 = false := by decide
+/-- with `ignore_blank_lines` the blank body line survives (banner bodies are kept) -/
+example : (parse { exCfg with ignoreBlank := true } exBanner).parents = [0, 0, 0, 0, 4, 4] := by decide
+/-- … whereas a blank line outside a banner is dropped and the list re-bootstrapped -/
+example : (parse { exCfg with ignoreBlank := true }
+    ["interface X".toList, "".toList, " shutdown".toList]).parents = [0, 0] := by decide
+
+/-- depth 3, a macro body with a deeper-indented line, and an unterminated banner -/
+def exDeep : List Str :=
+  ["interface X".toList, " a".toList, "  b".toList, "   c".toList, " d".toList,
+   "macro name m".toList, " x".toList, "  y".toList, "@".toList,
+   "banner exec #".toList, "  z".toList, "w".toList]
+
+example : (parse exCfg exDeep).parents = [0, 0, 1, 2, 0, 5, 5, 5, 5, 9, 9, 9] := by decide
+example : linkByIndent exCfg exDeep = [0, 0, 1, 2, 0, 5, 5, 6, 8, 9, 9, 11] := by decide
+example : ancestors (parse exCfg exDeep) 3 = [2, 1, 0] := by decide +kernel
+example : allParents (parse exCfg exDeep) 3 = [0, 1, 2] := by decide
+example : geneology (parse exCfg exDeep) 3 = [0, 1, 2, 3] := by decide
+example : allChildren (parse exCfg exDeep) 0 = [1, 2, 3, 4] := by decide
+example : allChildren (parse exCfg exDeep) 1 = [2, 3] := by decide
+example : lineage (parse exCfg exDeep) 2 = [0, 1, 2, 3] := by decide
+example : familyEndpoint (parse exCfg exDeep) 1 = 3 := by decide
+example : siblings (parse exCfg exDeep) 1 = [1, 4] := by decide
+example : IsAncestor (parse exCfg exDeep) 0 3 :=
+  ((ancestors_spec (parse_forest exCfg exDeep) 3).1 0).mp (by decide +kernel)
 
 end Ccp.C03
